@@ -21,12 +21,16 @@ const vectorsCompiled = true
 
 type vecState struct {
 	handles map[string]segment.VectorIndex
+	lastIt  map[string]segment.VecPostingsIterator // the iterator of a handle's previous search
+	nsearch map[string]int
 	once    sync.Once
 }
 
 func (e *Exec) vecInit() {
 	e.vec.once.Do(func() {
 		e.vec.handles = map[string]segment.VectorIndex{}
+		e.vec.lastIt = map[string]segment.VecPostingsIterator{}
+		e.vec.nsearch = map[string]int{}
 		// the expiry monitor must not run by itself: ticks are explicit events
 		zap.VerifSetMonitorFreq(1000 * time.Hour)
 	})
@@ -55,6 +59,12 @@ func (e *Exec) vecArmFault(op string, n int) {
 	faiss.VerifClearFaults()
 	faiss.VerifResetCallCounts()
 	faiss.VerifFailNth(op, n)
+}
+
+func (e *Exec) vecArmHook(op string, n int, f func()) {
+	faiss.VerifClearFaults()
+	faiss.VerifResetCallCounts()
+	faiss.VerifOnNth(op, n, f)
 }
 
 func (e *Exec) vecFired(op string, n int) bool { return faiss.VerifCallCounts()[op] >= n }
@@ -170,7 +180,23 @@ func (e *Exec) execVec(c *Cmd, sl *slots) (string, bool, bool) {
 		if err != nil {
 			return errKind(err), true, true
 		}
-		it := pl.Iterator(nil)
+		// every second search of a handle recycles the iterator of its previous search (outside
+		// par blocks, where handles are private to a goroutine anyway)
+		var pre segment.VecPostingsIterator
+		if sl == nil || !sl.par {
+			e.mu.Lock()
+			e.vec.nsearch[c.Pos[0]]++
+			if e.vec.nsearch[c.Pos[0]]%2 == 0 {
+				pre = e.vec.lastIt[c.Pos[0]]
+			}
+			e.mu.Unlock()
+		}
+		it := pl.Iterator(pre)
+		if sl == nil || !sl.par {
+			e.mu.Lock()
+			e.vec.lastIt[c.Pos[0]] = it
+			e.mu.Unlock()
+		}
 		var hits []string
 		for {
 			p, err := it.Next()
@@ -289,6 +315,22 @@ func (e *Exec) execVec(c *Cmd, sl *slots) (string, bool, bool) {
 				}
 				o, _ := e.safeExec(parseLine(c.LineNo, cmd), sl, "")
 				lines = append(lines, cmd, "r "+o)
+				if c.Op == "mergeengfaults" && c.str("cancel", "0") == "1" {
+					// the same instant used for a cancellation instead: the close channel is closed
+					// from inside that engine call
+					settle()
+					faiss.VerifResetCounters()
+					cmd = fmt.Sprintf("%s close=engine:%s:%d", base, op, n)
+					if n%2 == 1 {
+						o0, _ := e.safeExec(parseLine(c.LineNo, base), sl, "")
+						lines = append(lines, base, "r "+o0)
+						cmd += " keep=1"
+						settle()
+						faiss.VerifResetCounters()
+					}
+					o, _ := e.safeExec(parseLine(c.LineNo, cmd), sl, "")
+					lines = append(lines, cmd, "r "+o)
+				}
 			}
 		}
 		// finally the fault-free operation again, so that later commands see its result
